@@ -11,7 +11,7 @@ import framework as F
 PROP = "C13"
 META = dict(
     technique="Coq refinement proof (SharedNode model -> per-output stream positions, all schedules) + coqc-evaluated model vs crate correspondence incl. backlog hook",
-    text="Machine-checked (Coq 8.16.1, no axioms) proof over a model of dasp_signal::bus written after the source (VecDeque backlog, BTreeMap of read offsets, next_key): for every finite schedule of send/next/pending_frames/drop on any number of outputs, no panic unless a dropped/unknown key is used, each output receives source frames attach, attach+1, ... (attach = source pull count at send), pending = pulled - position, the set of source frames pulled equals the set delivered (one pull per distinct frame, only on demand), and the backlog is exactly the pulled frames the slowest live output still lacks (empty when all caught up or none live). The model is tied to the crate by running it inside coqc on the same schedules (all to depth 7 over <=3 live outputs, random 500-op schedules over <=6) and comparing every frame, the source pull counter, every pending count and the hooked backlog length after every operation.",
+    text="Machine-checked (Coq 8.16.1, no axioms) proof over a model of dasp_signal::bus written after the source (VecDeque backlog, BTreeMap of read offsets, next_key): for every finite schedule of send/next/pending_frames/drop on any number of outputs, no panic unless a dropped/unknown key is used, each output receives source frames attach, attach+1, ... (attach = source pull count at send), pending = pulled - position, the set of source frames pulled equals the set delivered (one pull per distinct frame, only on demand), and the backlog is exactly the pulled frames the slowest live output still lacks (empty when all caught up or none live). The model is tied to the crate by running it inside coqc on the same schedules (all to depth 7 over <=3 live outputs, random 500-op schedules over <=6) and comparing every frame, the source pull counter, every pending count and the hooked backlog length after every operation. A long-lag family (a leader pulls 65535..200000 frames, thorough 2^20+3, while a laggard pulls nothing) is too long for the list-based model inside coqc; there the verdict is theorem-derived: the observations are computed in closed form from c13_stream / c13_pending / c13_pull_once / c13_backlog and compared exactly with the crate (reduced instances run through both the model and the closed form).",
     note="Trusted: Coq kernel; the hand-written model (VecDeque as list, BTreeMap as association list, usize as nat: next_key wrap-around after 2^64 sends and frames_read+1 overflow are outside the model; source = function nat -> frame with a pull counter) validated only through the correspondence; harness + python generators; hook Bus::verif_backlog_len (cfg rustaudio_dasp_verif). Axioms: none.",
     design="6/C13")
 HEADER = "From Dasp Require Import Signal.BusRun."
@@ -42,7 +42,7 @@ def correspond(binpath, items, tag):
 
 def coq_op(o):
     return {"s": lambda: "ZSend", "n": lambda: f"ZNext {F.zlit(o[1])}", "p": lambda: f"ZPending {F.zlit(o[1])}",
-            "d": lambda: f"ZDrop {F.zlit(o[1])}"}[o[0]]()
+            "d": lambda: f"ZDrop {F.zlit(o[1])}", "R": lambda: f"ZRun {F.zlit(o[1])} {F.zlit(o[2])}"}[o[0]]()
 
 
 def build(item, ops=None):
@@ -78,6 +78,12 @@ class Sim:
             if i < len(self.pos):
                 self.pos[i] = None
 
+        elif o[0] == "R":
+            i = o[1]
+            if i < len(self.pos) and self.pos[i] is not None:
+                self.pos[i] += o[2]
+                self.pulled = max(self.pulled, self.pos[i])
+
     def slowest(self):
         l = self.live()
         return min(l, key=lambda i: (self.pos[i], i)) if l else None
@@ -85,6 +91,96 @@ class Sim:
     def fastest(self):
         l = self.live()
         return max(l, key=lambda i: (self.pos[i], -i)) if l else None
+
+
+# ---------------------------------------------------------------------------------------------
+# THEOREM-DERIVED verdict (used for the long-lag family, whose 10^5..10^6-op schedules are too long
+# to run the list-based Coq model inside coqc).  For a schedule that only addresses live outputs the
+# proved theorems determine every observation in closed form:
+#   c13_stream / c13_attach : the i-th frame output k receives is source frame attach_k + i, where
+#                             attach_k = source pull count at its send  (source frame j = 1000 + j);
+#   c13_pending             : pending_k = pulled - (attach_k + received_k);
+#   c13_pull_once / c13_next: pulled = max over outputs ever attached of attach_k + received_k
+#                             (a next at position p pulls iff p = pulled);
+#   c13_backlog             : backlog = pulled - min over live k of (attach_k + received_k), 0 if none live;
+#   c13_no_panic            : no panic.
+# position_k = attach_k + received_k is what Sim.pos tracks.  The same closed form is also compared
+# with the harness on EVERY case of the check, including all those run through the Coq model, which
+# ties the closed form to the model on the regular and the reduced long-lag (bridge) instances.
+def theorem_observations(ops):
+    sim = Sim()
+    out = []
+    for o in ops:
+        i = o[1] if len(o) > 1 else 0
+        live = i < len(sim.pos) and sim.pos[i] is not None
+        if o[0] == "s":
+            head = [1, len(sim.pos)]
+        elif not live:
+            head = [9]
+        elif o[0] == "n":
+            head = [2, 1000 + sim.pos[i]]
+        elif o[0] == "p":
+            head = [3, sim.pulled - sim.pos[i]]
+        elif o[0] == "d":
+            head = [4]
+        elif o[0] == "R":
+            head = [5, -1, -1, 0] if o[2] == 0 else [5, 1000 + sim.pos[i], 1000 + sim.pos[i] + o[2] - 1, 0]
+        sim.apply(o)
+        lv = sim.live()
+        backlog = sim.pulled - min(sim.pos[k] for k in lv) if lv else 0
+        out.append(head + [sim.pulled, backlog] + [(-1 if p is None else sim.pulled - p) for p in sim.pos])
+    return out
+
+
+def theorem_mismatch(item, obs_line):
+    """index of the first op whose observation differs from the closed form, or None."""
+    try:
+        got = F.norm_obs_line(obs_line)
+    except ValueError:
+        return 0
+    exp = theorem_observations(item["ops"])
+    if got == exp:
+        return None
+    for k, (g, e) in enumerate(zip(got, exp)):
+        if g != e:
+            return k
+    return min(len(got), len(exp))
+
+
+def long_lag_cases(tier):
+    """leader A (slot 0), laggard B (slot 1, not pulled during the lead phase), optionally C attached mid-way;
+    A pulls N frames in one compact run; observe; B pulls its first 3 frames (for some N everything);
+    the laggard is dropped: the backlog must fall to the next-slowest lag."""
+    ns = [65535, 65536, 65537, 70001, 200000] + ([2 ** 20 + 3] if tier == "thorough" else [])
+    cases = []
+    for n in ns:
+        # two outputs
+        cases.append([["s"], ["s"], ["R", 0, n], ["p", 0], ["p", 1], ["R", 1, 3], ["p", 1], ["d", 1], ["n", 0]])
+        # C attached mid-way, pulls a little; laggard dropped -> backlog = lag of C
+        h = n // 2
+        cases.append([["s"], ["s"], ["R", 0, h], ["s"], ["R", 0, n - h], ["R", 2, 5], ["p", 1], ["p", 2],
+                      ["R", 1, 3], ["d", 1], ["p", 2], ["R", 2, 4], ["d", 0], ["n", 2]])
+    # crossing the 65536 / 65537 boundary frame by frame, B having pulled a few frames first
+    cases.append([["s"], ["s"], ["n", 1], ["n", 1], ["R", 0, 65535], ["n", 0], ["n", 0], ["n", 0], ["n", 0], ["n", 0],
+                  ["p", 1], ["n", 1], ["n", 1], ["n", 1], ["d", 1]])
+    # the laggard drains everything (all frames must be the contiguous run), then both in step
+    for n in ([70001] if tier == "quick" else [70001, 2 ** 20 + 3]):
+        cases.append([["s"], ["s"], ["R", 0, n], ["R", 1, 3], ["R", 1, n - 3], ["p", 1], ["n", 1], ["n", 0], ["R", 0, 10], ["R", 1, 10]])
+    # the leader is dropped while the laggard is far behind: nothing may be trimmed
+    cases.append([["s"], ["s"], ["R", 0, 65537], ["d", 0], ["p", 1], ["R", 1, 65537], ["n", 1]])
+    return [build(dict(kind="longlag", ops=ops)) for ops in cases]
+
+
+def bridge_cases():
+    """reduced instances of the long-lag family, run through the Coq model AND the closed form"""
+    cases = []
+    for n in (300, 2500):
+        h = n // 2
+        cases.append([["s"], ["s"], ["R", 0, n], ["p", 0], ["p", 1], ["R", 1, 3], ["p", 1], ["d", 1], ["n", 0]])
+        cases.append([["s"], ["s"], ["R", 0, h], ["s"], ["R", 0, n - h], ["R", 2, 5], ["p", 1], ["p", 2],
+                      ["R", 1, 3], ["d", 1], ["p", 2], ["R", 2, 4], ["d", 0], ["n", 2]])
+        cases.append([["s"], ["s"], ["R", 0, n], ["R", 1, 3], ["R", 1, n - 3], ["p", 1], ["n", 1], ["n", 0], ["R", 0, 10], ["R", 1, 10], ["R", 1, 0], ["R", 5, 2]])
+    return [build(dict(kind="bridge", ops=ops)) for ops in cases]
 
 
 def exhaustive(depth, maxlive):
@@ -246,7 +342,7 @@ def gen_cases(rng, tier):
             ri += 1
         merged.append(it)
     merged += rand[ri:]
-    return merged, n_exh
+    return bridge_cases() + merged, n_exh
 
 
 def analyse(item, obs_line):
@@ -260,9 +356,9 @@ def analyse(item, obs_line):
         t = [int(x) for x in ob.split()]
         if not t:
             continue
-        hl = {1: 2, 2: 2, 3: 2, 4: 1, 9: 1, 8: 2}.get(t[0], 1)
+        hl = {1: 2, 2: 2, 3: 2, 4: 1, 9: 1, 8: 2, 5: 4}.get(t[0], 1)
         pulls, backlog, pend = t[hl], t[hl + 1], t[hl + 2:]
-        if t[0] == 2:
+        if t[0] in (2, 5):
             i = o[1]
             if any(p >= 2 for j, p in enumerate(pend) if j != i):
                 flags.add("lag2")
@@ -345,11 +441,86 @@ def main(rep, tier, seed):
             "harness_line": small["line"], "implementation_observations": out, "model_observations": model[-3000:],
             "observation_format": "per op: tag payload | source pulls | backlog (hook) | pending of every slot (-1 dropped); tags 1 send 2 next 3 pending 4 drop 9 slot empty 8 panic",
             "original_case_index": idx, "replay": "./check.py C13 --replay <this file>"})
-    dist = {"ops_histogram": hist, "case_kinds": kinds, "exhaustive_schedules": n_exh,
-            "random_schedules": len(items) - n_exh - len(corpus), "corpus_cases": len(corpus),
+    # --- closed form (theorem-derived) against the implementation: on every model-run case, and as the
+    #     only verdict on the long-lag family
+    ll = long_lag_cases(tier)
+    ll_info = long_lag_phase(rep, binpath, ll)
+    cf_checked, cf_bad = 0, []
+    if not errors:
+        badset = set(bad)
+        for idx, (it, o) in enumerate(zip(items, outl)):
+            if idx in badset:
+                continue
+            cf_checked += 1
+            if theorem_mismatch(it, o) is not None:
+                cf_bad.append(idx)
+        for idx in cf_bad[:2]:
+            it = items[idx]
+            report_closed_form(rep, binpath, it, f"closedform{idx}")
+    if ll_info["ran"]:
+        for it, o in zip(ll, ll_info["out"]):
+            kinds[it["kind"]] = kinds.get(it["kind"], 0) + 1
+            for op in it["ops"]:
+                hist[op[0]] = hist.get(op[0], 0) + 1
+            nops += sum(op[2] if op[0] == "R" else 1 for op in it["ops"])
+            fl = analyse(it, o)
+            for f_ in fl:
+                flagc[f_ + "_longlag"] = flagc.get(f_ + "_longlag", 0) + 1
+            if nontrivial(fl):
+                nontriv.add(it["line"])
+    dist = {"long_lag": {"cases": len(ll), "lead_lengths": sorted({op[2] for it in ll for op in it["ops"] if op[0] == "R" and op[2] > 1000}),
+                         "verdict": "theorem-derived closed form (c13_stream, c13_attach, c13_pending, c13_pull_once, c13_next, c13_backlog, c13_no_panic), NOT a model run",
+                         "disagreements": ll_info["bad"], "max_backlog_observed": ll_info["max_backlog"]},
+            "closed_form_also_checked_on_model_run_cases": cf_checked, "closed_form_disagreements_there": len(cf_bad),
+            "bridge_cases_model_and_closed_form": kinds.get("bridge", 0),
+            "ops_histogram": hist, "case_kinds": kinds, "exhaustive_schedules": n_exh,
+            "random_schedules": len(items) - n_exh - len(corpus) - kinds.get("bridge", 0), "corpus_cases": len(corpus),
             "operations_total": nops, "cases_reaching": flagc}
     samples = [items[i]["line"][:400] for i in (len(corpus), len(corpus) + 1, len(items) - 1)] if items else []
-    return finish(rep, info, len(items), len(nontriv), dist, samples, bad, tier)
+    samples.append(ll[0]["line"])
+    return finish(rep, info, len(items) + (len(ll) if ll_info["ran"] else 0), len(nontriv), dist, samples,
+                  list(bad) + cf_bad + [0] * ll_info["bad"], tier)
+
+
+def closed_form_fails(binpath):
+    def fails(c):
+        rc, out, _ = F.run_bin(binpath, [c["line"]])
+        return rc == 0 and len(out) == 1 and theorem_mismatch(c, out[0]) is not None
+    return fails
+
+
+def report_closed_form(rep, binpath, it, name):
+    small = F.shrink_ops(it, build, closed_form_fails(binpath))
+    rc, out, _ = F.run_bin(binpath, [small["line"]])
+    exp = theorem_observations(small["ops"])
+    k = theorem_mismatch(small, out[0]) if out else 0
+    rep.violation(name, {
+        "kind": "dasp_signal::bus contradicts the proved C13 theorems: an observation differs from the value c13_stream / c13_pending / c13_pull_once / c13_backlog determine (gap-free stream from the attach position, pending = pulled - position, backlog = pulled - slowest position)",
+        "case": {"kind": small["kind"], "ops": small["ops"]}, "harness_line": small["line"],
+        "first_differing_op_index": k, "first_differing_op": small["ops"][k] if k is not None and k < len(small["ops"]) else None,
+        "implementation_observations": out,
+        "theorem_derived_observations": ";".join(" ".join(map(str, e)) for e in exp),
+        "observation_format": "per op: tag payload | source pulls | backlog (hook) | pending of every slot (-1 dropped); tags 1 send 2 next(frame) 3 pending 4 drop 5 run(first last breaks) 9 slot empty 8 panic",
+        "replay": "./check.py C13 --replay <this file>"})
+
+
+def long_lag_phase(rep, binpath, ll):
+    rc, out, err = F.run_bin_parallel(binpath, [it["line"] for it in ll])
+    if rc != 0 or len(out) != len(ll):
+        rep.violation("long_lag_harness", {"kind": "harness failed on the long-lag family", "log": f"rc={rc} lines={len(out)}/{len(ll)} {err[-1500:]}"}, no_input=True)
+        return {"ran": False, "out": [], "bad": 0, "max_backlog": 0}
+    badk = [k for k, (it, o) in enumerate(zip(ll, out)) if theorem_mismatch(it, o) is not None]
+    for k in badk[:3]:
+        report_closed_form(rep, binpath, ll[k], f"longlag{k}")
+    mb = 0
+    for o in out:
+        try:
+            for ob in F.norm_obs_line(o):
+                hl = {1: 2, 2: 2, 3: 2, 4: 1, 9: 1, 8: 2, 5: 4}.get(ob[0], 1)
+                mb = max(mb, ob[hl + 1])
+        except (ValueError, IndexError):
+            pass
+    return {"ran": True, "out": out, "bad": len(badk), "max_backlog": mb}
 
 
 def finish(rep, info, n, nontriv, dist, samples, bad=(), tier="quick"):
@@ -364,7 +535,7 @@ def finish(rep, info, n, nontriv, dist, samples, bad=(), tier="quick"):
             "hook Bus::verif_backlog_len() (cfg rustaudio_dasp_verif) reports buffer.len()"],
         "theorems": th, "axioms_reported": info.get("axioms", []),
         "evaluations": n, "distinct_nontrivial": nontriv,
-        "rule": f"every valid schedule of exactly {depth} send/next/drop operations over <= 3 simultaneously live outputs (all prefixes observed), plus random 500-operation schedules over <= 6 live outputs in 8 profiles (lock-step, never-pulling output, drop slowest, drop fastest, re-attach after all dropped, monitor, dead slots, mixed); after every operation: frame, source pull counter, backlog length (hook), pending_frames of every live output; non-trivial = some output has >= 2 pending frames while another one pulls, or the slowest live output is dropped while the backlog is non-empty",
+        "rule": f"every valid schedule of exactly {depth} send/next/drop operations over <= 3 simultaneously live outputs (all prefixes observed), plus random 500-operation schedules over <= 6 live outputs in 8 profiles (lock-step, never-pulling output, drop slowest, drop fastest, re-attach after all dropped, monitor, dead slots, mixed); after every operation: frame, source pull counter, backlog length (hook), pending_frames of every live output; non-trivial = some output has >= 2 pending frames while another one pulls, or the slowest live output is dropped while the backlog is non-empty. Long-lag family (leader pulls 65535..200000 frames, thorough 2^20+3, while a laggard pulls nothing; mid-way attach; laggard reads 3 / all; laggard or leader dropped): verdict is THEOREM-DERIVED, not a model run: the observations are computed in closed form from c13_stream/c13_attach/c13_pending/c13_pull_once/c13_backlog and compared exactly; reduced instances (300, 2500 frames) go through both the Coq model and the closed form, and the closed form is also compared on every model-run case",
         "samples": samples, "input_distribution": dist, "disagreements": len(bad),
         "explanation": "theorems: invariant in every reachable state, per-output stream = source frames from the attach position, pending = pulled - position, source pulled once per distinct frame, backlog = slowest lag, no panic on well-formed schedules; tie: the model's executable definitions run by coqc on the same schedules as the real bus, all observations compared exactly",
     }
@@ -378,10 +549,18 @@ def replay(path):
     it = build(j["case"])
     ok, blog, binpath = F.harness_build("c13")
     rc, out, _ = F.run_bin(binpath, [it["line"]])
-    _, model = F.coq_eval(TAG, HEADER, f"run_case ({it['coq']})")
     print("case:", it["line"])
     print("implementation:", out)
-    print("model:", model)
-    o, bad, errs = correspond(binpath, [it], TAG + "_replay")
-    print("AGREE" if not bad and not errs else "DISAGREE")
-    return 1 if bad or errs else 0
+    exp = theorem_observations(it["ops"])
+    print("theorem-derived:", ";".join(" ".join(map(str, e)) for e in exp))
+    k = theorem_mismatch(it, out[0]) if out else 0
+    print("closed form:", "AGREE" if k is None else f"DISAGREE at op {k} {it['ops'][k] if k < len(it['ops']) else ''}")
+    bad, errs = [], []
+    if sum(op[2] if op[0] == "R" else 1 for op in it["ops"]) <= 6000:
+        _, model = F.coq_eval(TAG, HEADER, f"run_case ({it['coq']})")
+        print("model:", model)
+        o, bad, errs = correspond(binpath, [it], TAG + "_replay")
+        print("model:", "AGREE" if not bad and not errs else "DISAGREE")
+    else:
+        print("model: not run (schedule too long for the list-based model inside coqc; verdict is theorem-derived)")
+    return 1 if bad or errs or k is not None else 0
